@@ -923,6 +923,28 @@ def _average_by(st, rec):
             require(float(n_obs[i]) == len(idx), 'average_dataset_by(%r): n_obs for %r is %r, %d rows '
                     'carry the label' % (by, norm(u), float(n_obs[i]), len(idx)),
                     'average_dataset_by:n_obs')
+        # "means of exactly the rows carrying that label": a missing value (NaN) in one row may
+        # only reach the average of that row's own label
+        if len(groups) >= 2 and st.obj.measurements.ndim == 2 and st.obj.measurements.size:
+            poisoned = st.obj.copy()
+            meas = np.array(poisoned.measurements, dtype=float)
+            r = rec.get('b', 0) % meas.shape[0]
+            c = rec.get('m', 0) % meas.shape[1]
+            meas[r, c] = np.nan
+            poisoned.measurements = meas
+            avg2, uniq2, _ = _call('average_dataset_by', average_dataset_by, poisoned, by)
+            own = m.row_value(m.rows[r], by)
+            for i, u in enumerate(uniq2):
+                j = [k for k, w in enumerate(uniq) if same(w, u)]
+                if len(j) != 1:
+                    continue
+                if same(u, own):
+                    continue
+                if not core.close(avg2[i], avg[j[0]], rtol=0, atol=0):
+                    raise Violation('average_dataset_by(%r): a NaN in a row labelled %r changed the '
+                                    'average of label %r from %s to %s' % (
+                                        by, norm(own), norm(u), core._short(avg[j[0]]),
+                                        core._short(avg2[i])), 'average_dataset_by:foreign-rows')
     return True
 
 
